@@ -4,7 +4,7 @@ from fractions import Fraction as Fr
 
 import engine
 import streams
-from common import parse_q, sub_seed
+from common import parse_q, sub_seed, size
 
 THEOREMS = ["LNN.C19_valClamp", "LNN.C19_value_exact", "LNN.C19_gradient_transparent", "LNN.C19_and", "LNN.C19_or",
             "LNN.C19_implies", "LNN.C19_and_gradient"]
@@ -30,7 +30,7 @@ def expected(nrn):
 
 
 def run(rep, tier, seed):
-    nb = 20 if tier == "quick" else 300
+    nb = size(tier, 20, 300)
     cases = []
     for k in range(nb):
         rng = random.Random(sub_seed(seed, "c19", k))
